@@ -115,10 +115,10 @@ func c01Observe(c *ev.Ctx, k c01Case, e *genv, p *csr.ReqParam, err error, esc s
 	}
 	if !authOK {
 		if caCalls > 0 {
-			c.Violation("C01:ca-called-without-proof:"+c01Why(k, p, reg, sigValid), fmt.Sprintf("%d signing request(s) reached the CA although %s", caCalls, c01Why(k, p, reg, sigValid)), k)
+			c.Violation("C01:ca-called-without-proof:"+c01WhyKey(k, p, reg, sigValid), fmt.Sprintf("%d signing request(s) reached the CA although %s", caCalls, c01Why(k, p, reg, sigValid)), k)
 		}
 		if adds > 0 {
-			c.Violation("C01:agent-add-without-proof:"+c01Why(k, p, reg, sigValid), fmt.Sprintf("%d identities were added to the requester's agent although %s", adds, c01Why(k, p, reg, sigValid)), k)
+			c.Violation("C01:agent-add-without-proof:"+c01WhyKey(k, p, reg, sigValid), fmt.Sprintf("%d identities were added to the requester's agent although %s", adds, c01Why(k, p, reg, sigValid)), k)
 		}
 		if errType(err) != "AllAuthFailed" {
 			c.Violation("C01:wrong-error:"+errType(err), fmt.Sprintf("run returned %s (%v), expected AllAuthFailed", errType(err), err), k)
@@ -166,6 +166,20 @@ func c01Why(k c01Case, p *csr.ReqParam, reg ssh.PublicKey, sigValid bool) string
 		return "the agent returned no valid signature over this run's challenge (" + k.Agent + ")"
 	}
 	return "?"
+}
+
+func c01WhyKey(k c01Case, p *csr.ReqParam, reg ssh.PublicKey, sigValid bool) string {
+	switch {
+	case p == nil:
+		return "nil-params"
+	case p.NamespacePolicy != common.NoNamespace:
+		return "foreign-namespace"
+	case p.Attrs.HardKey:
+		return "hard-key"
+	case reg == nil:
+		return "no-registered-key:" + k.KeyDir
+	}
+	return "no-valid-signature:" + k.Agent
 }
 
 func c01Single(c *ev.Ctx, k c01Case) {
